@@ -185,10 +185,27 @@ func earlyExitConds(list []ast.Stmt, upto ast.Node) []pcond {
 		if st == upto {
 			break
 		}
-		if is, ok := st.(*ast.IfStmt); ok && is.Else == nil && terminates(is.Body) {
-			for _, c := range splitCond(is.Cond, false) {
-				c.exit = is
-				out = append(out, c)
+		if is, ok := st.(*ast.IfStmt); ok && terminates(is.Body) {
+			// if c1 {exit} else if c2 {exit} ... (no final else): all conditions are false afterwards
+			chain := []*ast.IfStmt{is}
+			okChain := true
+			for cur := is; cur.Else != nil; {
+				next, isIf := cur.Else.(*ast.IfStmt)
+				if !isIf || !terminates(next.Body) {
+					okChain = false
+					break
+				}
+				chain = append(chain, next)
+				cur = next
+			}
+			if !okChain {
+				continue
+			}
+			for _, link := range chain {
+				for _, c := range splitCond(link.Cond, false) {
+					c.exit = link
+					out = append(out, c)
+				}
 			}
 		}
 	}
